@@ -67,11 +67,12 @@ PREDEFINED = {
 _FITTED = {}
 
 
-def predefined_data(name):
+def predefined_data(name, dataset=None):
     import os
     import pandas as pd
     import virocon as vc
     fn, cols, tr = PREDEFINED[name]
+    fn = dataset or fn
     data = vc.read_ec_benchmark_dataset(os.path.join(vlib.REPO, "datasets", fn)).iloc[:, cols]
     if tr == "hs_s":
         hs, tz = data.iloc[:, 0], data.iloc[:, 1]
@@ -93,6 +94,27 @@ def fit_predefined(name):
             model.fit(data, r[1])
         _FITTED[name] = (model, [float(data.iloc[:, k].max()) for k in range(data.shape[1])])
     return _FITTED[name]
+
+
+def fit_predefined_fresh(name, dataset=None):
+    """a NEW model object of the predefined structure fitted to the given dataset file (not shared with other cases)"""
+    import virocon as vc
+    r = getattr(vc, name)()
+    model = vc.GlobalHierarchicalModel(r[0])
+    with warnings.catch_warnings():
+        warnings.simplefilter("ignore")
+        model.fit(predefined_data(name, dataset), r[1])
+    return model
+
+
+def refit_predefined(model, name, dataset):
+    """fit the SAME model object again, to another dataset"""
+    import virocon as vc
+    r = getattr(vc, name)()
+    with warnings.catch_warnings():
+        warnings.simplefilter("ignore")
+        model.fit(predefined_data(name, dataset), r[1])
+    return model
 
 
 def predefined_desc(name):
@@ -381,6 +403,11 @@ def apply_forms(limits, deltas, lim_form="tuples", dl_form="asis"):
             dl = np.float64(deltas)
         elif dl_form == "int":
             dl = int(deltas)
+        elif dl_form == "npint":
+            try:
+                dl = [np.int64(v) if isinstance(v, int) else v for v in deltas]
+            except TypeError:
+                dl = np.int64(deltas)
     return lim, dl
 
 
